@@ -228,6 +228,16 @@ def cases(tier):
                 s["controls"] = [dict(c, name="c0")]
                 s["inp_read"] = nt
                 out.append(s)
+    # simple controls on a clock-time RANGE (before c closes, from c on opens), in models whose start_clocktime is not a multiple
+    # of the hydraulic step, so that midnight falls between two grid points
+    for cth in (6 * H, 23 * H + 1800, 1800):
+        for clock in (1200, 3 * H + 1200, 22 * H + 2400, 0):
+            for order in (0, 1):
+                s = base(H, 360, clock)
+                s["opts"]["dur"] = 30 * H
+                cs = [dict(ctl("clock", "<", cth, "CLOSED"), name="c0"), dict(ctl("clock", ">=", cth, "OPEN"), name="c1")]
+                s["controls"] = cs if order == 0 else cs[::-1]
+                out.append(s)
     # several days: daily clock-time controls / rules must act on EVERY day of a 99-hour run (close at c1, reopen at c2)
     for c1, c2 in ((6 * H + 900, 18 * H), (23 * H + 1800, 2 * H), (H, 13 * H + 900)):
         for rule_ in (False, True):
@@ -300,6 +310,18 @@ def fire_instants(c, start, dur):
             if not rp:
                 break
             tau += rp
+    elif c.get("rel", "=") != "=":
+        # a simple control on a RANGE of the day (API only): it acts when the range opens - at midnight for before / <=, at the
+        # threshold for after / >= - and at t = 0 when the run starts inside the range
+        tod0 = start % DAY
+        if {"<": tod0 < c["t"], "<=": tod0 <= c["t"], ">": tod0 > c["t"], ">=": tod0 >= c["t"]}[c["rel"]]:
+            out.append(0)
+        edge = 0 if c["rel"] in ("<", "<=") else c["t"]
+        tau = (edge - start) % DAY
+        while tau <= dur:
+            if tau > 0:
+                out.append(tau)
+            tau += DAY
     else:
         tau = (c["t"] - start) % DAY
         while tau <= dur:
@@ -408,7 +430,7 @@ def run_case(s):
     changes = {l: timeline(s, l) for l in targets}
     all_changes = sorted(set(t for l in targets for t, _ in changes[l]))
     # ---- reference vs EPANET (validates the reference; EPANET visits its own set of instants)
-    api_only = any("repeat" in c or (not c.get("rule") and "prio" in c) for c in s["controls"])
+    api_only = any("repeat" in c or (not c.get("rule") and ("prio" in c or c.get("rel", "=") != "=")) for c in s["controls"])
     if api_only:
         counts["api_only_no_epanet_syntax"] = 1
         en, en_times = [], list(all_changes)
@@ -449,7 +471,7 @@ def run_case(s):
     if r.error:
         viol.append({"key": "run-fails", "what": "WNTRSimulator did not complete: %s" % r.warnings[:1]})
         return {"viol": viol, "counts": counts}
-    kinds = "+".join(sorted(set(("rule-" if c.get("rule") else "simple-") + c["kind"] + ("-repeat" if c.get("repeat") not in (None, False) and c["kind"] == "time" else "") + ("-once" if c.get("repeat") is False else "") + ("" if not c.get("rule") else ":" + c["rel"]) for c in s["controls"])))
+    kinds = "+".join(sorted(set(("rule-" if c.get("rule") else "simple-") + c["kind"] + ("-repeat" if c.get("repeat") not in (None, False) and c["kind"] == "time" else "") + ("-once" if c.get("repeat") is False else "") + ("" if not c.get("rule") and c.get("rel", "=") == "=" else ":" + c["rel"]) for c in s["controls"])))
     if len(targets) > 1:
         kinds = "multi-target:" + kinds
     if s.get("late_clock"):
@@ -463,6 +485,17 @@ def run_case(s):
         st = r.link["status"][l]
         for t, v in changes[l]:
             if t not in r.times:
+                # a daily RANGE of a simple control that opens and shuts again between two consecutive hydraulic grid points is
+                # its own, narrow class (the condition is only looked at where a step ends)
+                hyd_ = s["opts"]["hyd"]
+                inside = False
+                for c in s["controls"]:
+                    if c["link"] == l and not c.get("rule") and c["kind"] == "clock" and c.get("rel", "=") != "=" and t in fire_instants(c, s["opts"]["clock"], s["opts"]["dur"]):
+                        shut = t + (c["t"] if c["rel"] in ("<", "<=") else DAY - c["t"])
+                        inside = inside or shut <= (t // hyd_ + 1) * hyd_
+                if inside:
+                    viol.append({"key": "instant-not-solved:range-inside-one-hydraulic-step:%s" % kinds, "what": "%s changes to %s at t=%d (%s): the clock-time range of a simple control opens there and shuts again before the next hydraulic grid point, and no step is solved inside it; controls %s, start_clocktime %d" % (l, v, t, EN.hms(t), [_short(c) for c in s["controls"]], s["opts"]["clock"])})
+                    break
                 viol.append({"key": "instant-not-solved:%s" % kinds, "what": "%s changes to %s at t=%d (%s) but that instant is not among the solved steps %s; controls %s, start_clocktime %d" % (l, v, t, EN.hms(t), [x for x in r.times if x < 3 * H], [_short(c) for c in s["controls"]], s["opts"]["clock"])})
                 break
         for i, t in enumerate(r.times):
